@@ -58,7 +58,7 @@ impl Sub for Crash {
         (cfg, prop::collection::vec(op_strategy(true), 5..40), any::<u64>()).prop_map(|(cfg, ops, salt)| CrashCase { cfg, ops, salt }).boxed()
     }
     fn mandatory_labels(&self, _t: Tier) -> Vec<&'static str> {
-        vec!["boundary_in_commit", "boundary_by_merge_thread", "image_between_min_and_max", "outcome:MIN", "outcome:INDEP", "outcome:ORDERED", "deep_recovery", "history_with_merge", "history_with_rollback"]
+        vec!["boundary_in_commit", "boundary_by_merge_thread", "image_between_min_and_max", "outcome:MIN", "outcome:INDEP", "outcome:ORDERED", "deep_recovery", "history_with_merge", "history_with_rollback", "commit_failed_at_metadata_write", "boundary_after_failed_commit"]
     }
     fn run(&self, c: &CrashCase, cx: &Ctx) -> CaseResult {
         // 1. run the history once on SimDir
@@ -73,14 +73,58 @@ impl Sub for Crash {
             env.apply(op, cx)?;
         }
         env.apply(&Op::Commit, cx)?;
+        // In one history out of four (without a merging policy) one more transaction follows whose commit fails with an
+        // I/O error at the replacement of meta.json (or at a directory sync of the updater); the failed writer then
+        // collects garbage; the crash images taken from there on must still expose the last commit (or the one that
+        // failed, if its metadata had been replaced already).
+        let mut failed_commit: Option<(u64, usize)> = None;
+        let mut models_extra: Option<Model> = None;
+        if c.salt % 4 == 1 && c.cfg.policy == Policy::NoMerge {
+            env.apply(&Op::Add(AddSpec { grp: (c.salt >> 8) as u8 % NUM_GROUPS, words: vec![1, 2], num: 3 }), cx)?;
+            env.apply(&Op::DelUid((c.salt >> 16) as u16), cx)?;
+            env.apply(&Op::DelGroup((c.salt >> 20) as u8 % NUM_GROUPS), cx)?;
+            let start = sd.log_len();
+            let at_rename = (c.salt >> 4) & 1 == 0;
+            sd.set_faults(vec![crate::simdir::FaultRule {
+                kinds: vec![if at_rename { K::AtomicWrite } else { K::SyncDir }],
+                thread: "segment_updater".into(),
+                path_suffix: if at_rename { "meta.json".into() } else { String::new() },
+                nth: 0,
+                permanent: false,
+                locks: false,
+            }]);
+            let would_publish = env.pending.clone();
+            let r = env.apply(&Op::Commit, cx);
+            let fired = sd.faults_fired() > 0;
+            sd.clear_faults();
+            match r {
+                Err(_) if fired => {
+                    failed_commit = Some((env.commits + 1, start));
+                    models_extra = Some(would_publish);
+                    cx.label("commit_failed_at_metadata_write");
+                    if let Some(w) = env.writer.as_ref() {
+                        let _ = w.garbage_collect_files().wait();
+                    }
+                }
+                Err(f) => return Err(f),
+                Ok(()) => {}
+            }
+        }
         {
             let w = env.writer.take().unwrap();
-            w.wait_merging_threads().or_fail("wait_merging_threads_failed")?;
+            let r = w.wait_merging_threads();
+            if failed_commit.is_none() {
+                r.or_fail("wait_merging_threads_failed")?;
+            }
         }
         let log = sd.take_log();
         cx.label_if(env.stats.commits_during_merge_end > 0, "commit_held_while_merge_ends");
         let spans = env.commit_spans.clone();
-        let models = env.models.clone();
+        let mut models = env.models.clone();
+        if let (Some((jf, _)), Some(m)) = (&failed_commit, models_extra) {
+            debug_assert_eq!(*jf as usize, models.len());
+            models.push(m);
+        }
         drop(env);
         cx.label_if(log.iter().any(|o| thread_class(&o.thread) == "merge"), "history_with_merge");
         cx.label_if(c.ops.iter().any(|o| matches!(o, Op::Rollback | Op::PrepareAbort)), "history_with_rollback");
@@ -125,6 +169,13 @@ impl Sub for Crash {
                 if *start <= b && b < *end {
                     acceptable.push(*j);
                     in_commit = true;
+                }
+            }
+            if let Some((jf, start)) = failed_commit {
+                if b > start {
+                    // the failed commit may have replaced the metadata before it reported the error
+                    acceptable.push(jf);
+                    cx.label("boundary_after_failed_commit");
                 }
             }
             let by_bg = b > 0 && matches!(thread_class(&log[b - 1].thread), "merge");
